@@ -15,8 +15,8 @@ import (
 	"verifharness/internal/sim"
 )
 
-// Mine builds a block on the tip (coinbase paying cb, then txs), attaches it and lets the wallet process it.
-func (h *H) Mine(cb []sim.Out, txs []*wire.MsgTx) (*massutil.Block, error) {
+// TxMine builds a block on the tip (coinbase paying cb, then txs), attaches it and lets the wallet process it.
+func (h *H) TxMine(cb []sim.Out, txs []*wire.MsgTx) (*massutil.Block, error) {
 	b := h.N.MakeBlock(h.N.Tip(), cb, txs)
 	h.defineBlock(b)
 	if err := h.Attach(b); err != nil {
@@ -30,16 +30,16 @@ func (h *H) Mine(cb []sim.Out, txs []*wire.MsgTx) (*massutil.Block, error) {
 }
 
 // ScriptStd / ScriptStaking / ScriptBinding: output scripts paying a wallet address.
-func (h *H) ScriptStd(ai *AddrInfo) []byte                     { return h.scriptStd(ai) }
-func (h *H) ScriptStaking(ai *AddrInfo, frozen uint64) []byte  { return h.scriptStaking(ai, frozen) }
-func (h *H) ScriptBinding(ai *AddrInfo, newStyle bool) []byte  { return h.scriptBinding(ai, newStyle) }
+func (h *H) TxScriptStd(ai *AddrInfo) []byte                     { return h.scriptStd(ai) }
+func (h *H) TxScriptStaking(ai *AddrInfo, frozen uint64) []byte  { return h.scriptStaking(ai, frozen) }
+func (h *H) TxScriptBinding(ai *AddrInfo, newStyle bool) []byte  { return h.scriptBinding(ai, newStyle) }
 
-// ShID is the id of a script hash (or any byte string used as a destination parameter).
-func (h *H) ShID(b []byte) int { return h.sh(b) }
+// TxShID is the id of a script hash (or any byte string used as a destination parameter).
+func (h *H) TxShID(b []byte) int { return h.sh(b) }
 
-// Dest describes where a pkScript pays, the way coq/Tx/Build.v's [dest] does:
+// TxDest describes where a pkScript pays, the way coq/Tx/Build.v's [dest] does:
 // class 0 standard (sh), 1 staking (sh, frozen period), 2 binding (holder sh, id of the target bytes); 9 anything else.
-func (h *H) Dest(pk []byte) (class int, sh int, par int64) {
+func (h *H) TxDest(pk []byte) (class int, sh int, par int64) {
 	cls, pops := txscript.GetScriptInfo(pk)
 	switch cls {
 	case txscript.WitnessV0ScriptHashTy:
@@ -64,12 +64,12 @@ func (h *H) Dest(pk []byte) (class int, sh int, par int64) {
 	return 9, 0, 0
 }
 
-// TargetID is the destination parameter Dest reports for a binding target.
-func (h *H) TargetID(target []byte) int64 { return int64(h.sh(append([]byte("target:"), target...))) }
+// TxTargetID is the destination parameter Dest reports for a binding target.
+func (h *H) TxTargetID(target []byte) int64 { return int64(h.sh(append([]byte("target:"), target...))) }
 
-// AddrSh decodes an address string and returns the id of its script hash (0 if it does not decode
+// TxAddrSh decodes an address string and returns the id of its script hash (0 if it does not decode
 // to a witness script hash address) and its extend version (0 standard, 1 staking).
-func (h *H) AddrSh(addr string) (sh int, staking bool, ok bool) {
+func (h *H) TxAddrSh(addr string) (sh int, staking bool, ok bool) {
 	a, err := massutil.DecodeAddress(addr, config.ChainParams)
 	if err != nil {
 		return 0, false, false
